@@ -10,7 +10,11 @@ pub fn run_case(c: &Hist, obs: &mut Obs) -> Result<(), String> {
     run_closure(c, Dir::Sound, obs)
 }
 
-pub fn stages(tier: Tier, run: RunFn<Hist>, rule: &'static str) -> Vec<Box<dyn DynStage>> {
+pub fn run_case_analysis(c: &Hist, obs: &mut Obs) -> Result<(), String> {
+    run_closure_analysis(c, Dir::Sound, obs)
+}
+
+pub fn stages(tier: Tier, run: RunFn<Hist>, run_analysis: RunFn<Hist>, rule: &'static str) -> Vec<Box<dyn DynStage>> {
     let mut v: Vec<Box<dyn DynStage>> = Vec::new();
     let langs: Vec<(LangId, &'static str, u32, u32)> = vec![
         (LangId::Core, "hist-core", 4000, 120_000),
@@ -31,6 +35,21 @@ pub fn stages(tier: Tier, run: RunFn<Hist>, rule: &'static str) -> Vec<Box<dyn D
             panic_is_violation: false,
             render: |c: &Hist| c.render(),
             rule,
+            case_timeout_s: tier.pick(30, 120),
+            exhaustive: false,
+        }));
+    }
+    {
+        let mut cfg = HistCfg::for_lang(LangId::Core);
+        cfg.namings = Naming::diverse();
+        cfg.max_ops = tier.pick(6, 9);
+        v.push(Box::new(Stage {
+            name: "hist-core-analysis",
+            source: random(move || hist_strategy(cfg.clone()), tier.pick(1200, 30_000)),
+            run: run_analysis,
+            panic_is_violation: false,
+            render: |c: &Hist| c.render(),
+            rule: "as hist-core, on an e-graph that carries an analysis (smallest term size): unions change class data, so analysis-only and structural re-processing of e-nodes are interleaved in the rebuild",
             case_timeout_s: tier.pick(30, 120),
             exhaustive: false,
         }));
@@ -189,6 +208,7 @@ pub fn property(tier: Tier) -> Property {
         stages: stages(
             tier,
             run_case,
+            run_case_analysis,
             "histories of add_expr/union built from recipes (unrelated / permuted copy / renamed copy / context around renamed copy / reordered leaves / existing terms); non-trivial = at least one effective union and at least one queried pair that both sides report unequal after it; distinct by rendered history",
         ),
         assumptions: vec![
